@@ -21,13 +21,13 @@ SP = 'kawin.diffusion.SinglePhase'
 FORMS = ['constant', 'breakpoints2', 'breakpoints3', 'function']
 
 
-def _args(ctx, form):
+def _args(ctx, form, tag=''):
     if form == 'constant':
-        return (real(ctx, 'T'),), None
+        return (real(ctx, tag + 'T'),), None
     if form.startswith('breakpoints'):
         k = int(form[-1])
-        times = [real(ctx, 'h%d' % i) for i in range(k)]
-        temps = [real(ctx, 'K%d' % i) for i in range(k)]
+        times = [real(ctx, tag + 'h%d' % i) for i in range(k)]
+        temps = [real(ctx, tag + 'K%d' % i) for i in range(k)]
         for i in range(k - 1):
             ctx.assume(lt(times[i], times[i + 1]))
         return (times, temps), (times, temps)
@@ -75,7 +75,7 @@ def c_tp(ctx, it, cfg):
     ctx.prove('equivalent-specifications-same-incubation-treatment', a.fields['_isIsothermal'] is b.fields['_isIsothermal'] is c.fields['_isIsothermal'])
     # re-specifying an object keeps flag and schedule in step
     for f2 in FORMS:
-        args2, _ = _args(ctx, f2)
+        args2, _ = _args(ctx, f2, tag='re_') if f2 != 'function' else _args(ctx, f2)
         b.setTemperatureParameters(*args2)
         ctx.prove('respecify-as-%s/flag-and-schedule-follow' % f2, and_(b.fields['_isIsothermal'] is (f2 == 'constant'), eq(b(t), _spec(f2, args2, t))))
     if cfg['form'].startswith('break'):
@@ -102,6 +102,23 @@ def c_dtp(ctx, it, cfg):
         r = o(z, t)
         ctx.prove('%s/one-temperature-per-node' % name, and_(isinstance(r, ArrBase) and r.ndim == 1, eq(r.shape[0], N)))
         forall(ctx, '%s/every-node-follows-the-schedule' % name, 0, N, lambda i: eq(r.get(i), want))
+    # re-specifying an object that has already been evaluated: the next evaluation at the SAME (z, t) follows the new schedule
+    for f2 in [f for f in FORMS if f != 'function']:
+        args2, _ = _args(ctx, f2, tag='re_%s_' % f2)
+        if f2 == 'constant':
+            b.setIsothermalTemperature(*args2)
+        else:
+            b.setTemperatureArray(*args2)
+        r2 = b(z, t)
+        want2 = _spec(f2, args2, t)
+        forall(ctx, 'respecify-as-%s/same-point-follows-the-new-schedule' % f2, 0, N, lambda i: eq(r2.get(i), want2))
+    # one object used on two meshes of the same size: every call sees the mesh it was given (the schedule may depend on position)
+    calls = []
+    c = TP()
+    c.setTemperatureFunction(lambda zz, tt: (calls.append((zz, tt)), array(ctx, 'Tfun%d' % len(calls), (N,)))[1])
+    z2 = array(ctx, 'z_other', (N,))
+    r_a, r_b = c(z, t), c(z2, t)
+    ctx.prove('function-form/evaluated-for-every-mesh-it-is-asked-for', len(calls) == 2 and calls[0][0] is z and calls[1][0] is z2 and r_a is not r_b)
 
 
 # ---------------------------------------------------------------------------------------------------
@@ -114,7 +131,9 @@ def mk_precip(ctx, it, P=1, E=1, cls=(KE, 'PrecipitateModel'), facts=None):
     def tfun(t):
         log.append(('T', t))
         return SV(Tf(sym.zterm(t, True)))
-    tp = new_obj(it, PP, 'TemperatureParameters', Tfunction=tfun, Tparameters=None, _isIsothermal=False)
+    # the isothermal flag is arbitrary: a constant schedule may have been replaced by another constant between two solve calls,
+    # so also an 'isothermal' step must read the schedule (the history rows are arbitrary, they need not lie on the current schedule)
+    tp = new_obj(it, PP, 'TemperatureParameters', Tfunction=tfun, Tparameters=None, _isIsothermal=boolean(ctx, 'isothermal_flag'))
     m = new_obj(it, cls[0], cls[1], phases=to_arr(PHASES[:P]), elements=ELEMS[:E], pData=pd, temperatureParameters=tp, numberOfElements=E,
                 _currY=None, couplingModels=[], _stoppingConditions=[], _stopConditionMode=[], growth=None)
     return m, pd, n, Tf, log
